@@ -35,6 +35,28 @@ pub struct ExpectStats {
     pub nondeterministic: usize,
 }
 
+impl ExpectStats {
+    /// add the counters of another (later) batch
+    pub fn merge(&mut self, p: ExpectStats) {
+        self.evaluations += p.evaluations;
+        self.executions += p.executions;
+        self.distinct.extend(p.distinct);
+        self.nontrivial += p.nontrivial;
+        self.outcomes.extend(p.outcomes);
+        for (k, v) in p.by_family {
+            *self.by_family.entry(k).or_insert(0) += v;
+        }
+        self.violations.extend(p.violations);
+        for (k, v) in p.attributed {
+            *self.attributed.entry(k).or_insert(0) += v;
+        }
+        if self.samples.len() < 4 {
+            self.samples.extend(p.samples);
+        }
+        self.nondeterministic += p.nondeterministic;
+    }
+}
+
 pub fn check_response(e: &Expect, r: &Response) -> Option<String> {
     if r.results.len() != e.out.len() {
         return Some(format!("{} snippet results, expected {}: {:?}", r.results.len(), e.out.len(), r.results.last().map(|x| &x.outcome)));
